@@ -22,7 +22,7 @@ from ..astutil import (text, access_path, calls_in, func_params, stmts_of, is_co
                        canon_text, canon, fold, store_targets)
 from ..loader import where, AnalysisError
 from ..paths import Enumerator
-from ..terms import Terms, PathEnv
+from ..terms import Terms, PathEnv, self_effects_of
 from .. import poly
 from . import c04
 
@@ -171,8 +171,9 @@ def r2_sites(ctx, repo, roles):
         n += 1
         C = "%s.update_velocity" % c.name
         defs = single_defs(fn)
+        TV = Terms(fn, self_effects=self_effects_of(repo, c))
         writes = [s for s in stmts_of(fn) if isinstance(s, (ast.Assign, ast.AugAssign)) and any(
-            isinstance(t, ast.Subscript) and "features['velocity']" in text(t.value) for t in store_targets(s))]
+            isinstance(t, ast.Subscript) and "features['velocity']" in text(TV.expand(t.value, at=s)) for t in store_targets(s))]
         if not writes:
             ctx.violated("R2", C, where(c.module, fn), "no velocity component is written", key="component-clamped")
             continue
@@ -192,7 +193,7 @@ def r2_sites(ctx, repo, roles):
             callee = repo.method("SwarmAlgorithm", "speed_constriction")
             cps = func_params(callee)
             ui, li = cps.index(roles[1]), cps.index(roles[2])
-            u_arg, l_arg = canon_text(v.args[ui], defs), canon_text(v.args[li], defs)
+            u_arg, l_arg = text(TV.expand(v.args[ui], at=s)), text(TV.expand(v.args[li], at=s))
             if not u_arg.endswith(want_u) or not l_arg.endswith(want_l):
                 if u_arg.endswith(want_l) and l_arg.endswith(want_u):
                     bad = bad or (s, "upper and lower bound are swapped in the call: the clamp interval becomes empty/inverted")
